@@ -474,6 +474,73 @@ def unit_fit(prop, tier=None, seed=None):
     return S.finish(replay=replay_fitter)
 
 
+# =================================================================== _fit called twice (multi-pass fits)
+def unit__fit_two_passes(prop, tier=None, seed=None):
+    """Every pass of a multi-pass fit (contact-point relative ranges, plateau scan) optimises over ITS OWN points:
+    the real _fit is run twice on one fitter object with two different point selections; whatever the first pass
+    left behind on the object, the second pass hands exactly the second selection to the optimiser and reports its
+    extreme abscissae."""
+    S = Session(prop, "_fit.two_passes", "nanite.fit:IndentationFitter._fit")
+    S.check_domain = False
+    st = {}
+
+    def setup(I):
+        o = _mk_fitter(I, S, st, with_results=False)
+        _install_model(I, st)
+        _install_minimize(I, st)
+        n = st["n"]
+        fr2 = A.new_array_input(I, "fit_range_second_pass", kind="bool", length=n)
+        i = z3.Int("pre_i")
+        for arr in (st["fr"], fr2):
+            I.assume(z3.ForAll([i], z3.Implies(z3.And(i >= 0, i < n.term, arr.uf(i)), st["seg"].uf(i))))
+        f, _ = st["cls"].find("_fit")
+        st.update(fr2=fr2, o=o)
+
+        def driver(I):
+            I.call(sx.BoundMethod(o, f), [], {})
+            st["calls_after_first"] = len(st["mins"])
+            st["success_after_first"] = st["fp"].map.d.get("success", [False, None])[1]
+            o.attrs["fit_range"] = fr2
+            I.call(sx.BoundMethod(o, f), [], {})
+        return sx.Builtin("two_passes", driver), [], {}
+
+    def post(S, out):
+        I = S.I
+        if out.kind != "return":
+            S.fail("no_exception", f"raises {out.value.cls.name}")
+            return
+        S.ok("no_exception")
+        mins, fp, fr2, x, k = st["mins"], st["fp"], st["fr2"], st["x"], st["k"]
+        n = st["n"].term
+        i = z3.Int("i")
+        inr = z3.And(i >= 0, i < n)
+        S.names.update(i=i, x_i=x.uf(i), second_selection_i=fr2.uf(i), first_selection_i=st["fr"].uf(i))
+        succ = fp.map.d.get("success")
+        ok2 = succ is not None and succ[0] is True and succ[1] is True
+        if ok2:
+            # a successful second pass is a fit of the second selection
+            fresh_call = len(mins) > st["calls_after_first"]
+            # (skipping the optimisation is fine only if the second selection IS the first one)
+            S.ensure("second_pass_optimises_its_own_points",
+                     z3.BoolVal(True) if fresh_call else z3.Implies(inr, st["fr"].uf(i) == fr2.uf(i)),
+                     case={"optimiser_calls": len(mins)}, witness="skipped")
+            if fresh_call:
+                args = mins[-1]["args"] if isinstance(mins[-1]["args"], tuple) else ()
+                if len(args) == 3 and isinstance(args[0], SCompressed):
+                    S.ensure("second_pass_uses_the_second_selection",
+                             z3.Implies(inr, args[0].maskfn(i) == fr2.uf(i)))
+            for key, op in (("xmin", lambda a, b: a <= b), ("xmax", lambda a, b: a >= b)):
+                e = fp.map.d.get(key)
+                if e is None or e[0] is not True or not isinstance(e[1], SReal):
+                    S.fail(f"second_pass_reports_{key}_of_its_points", "not written")
+                    continue
+                S.ensure(f"second_pass_reports_{key}_of_its_points",
+                         z3.Implies(z3.And(inr, fr2.uf(i)), op(e[1].term, x.uf(i))))
+
+    S.run(setup, post, max_paths=4000)
+    return S.finish(replay=replay_fitter)
+
+
 # =================================================================== native replays
 def _synthetic(k=1.0, noise=0.0):
     """a synthetic paraboloid curve on a real Indentation object (approach + retract)"""
@@ -716,6 +783,8 @@ def unit_fit_multipass(prop, tier=None, seed=None):
 
 def units_for(prop):
     us = [Unit("_fit", unit__fit, prop=prop), Unit("fit", unit_fit, prop=prop)]
+    if prop in ("C05", "C04"):
+        us.append(Unit("_fit.two_passes", unit__fit_two_passes, prop=prop))
     # (unit_fit_multipass -- real fit() + real _fit() for four passes -- explores 160+ paths and took 29 min in the
     #  one run it was given; it is kept for reference but not registered)
     return us
